@@ -28,7 +28,9 @@ pub struct Outcome {
 }
 
 /// properties served by the structured target
-pub const PROPERTIES: [&str; 12] = ["C01", "C02", "C05", "C06", "C07", "C08", "C09", "C10", "C15", "C17", "C18", "C19"];
+pub const PROPERTIES: [&str; 12] = [
+    "C01", "C02", "C05", "C06", "C07", "C08", "C09", "C10", "C15", "C17", "C18", "C19",
+];
 
 // ------------------------------------------------------------------------------------------------
 // the data provider
@@ -99,8 +101,13 @@ impl<'a> U<'a> {
 // ------------------------------------------------------------------------------------------------
 // decoders (mirror gen::message clause by clause)
 
-const CHARS: &[&str] = &["A", "b", "7", " ", "_", "D", "L", "T", "\u{1}", "\u{7f}", "é", "ß", "€", "日", "𝄞", "~", "/", "\"", "<", "&"];
-const POOL: &[&str] = &["", "A", "APP", "APP1", "CTX", "ECU", "é", "€a", "TEST", "Ab7 ", "NONE", "APP "];
+const CHARS: &[&str] = &[
+    "A", "b", "7", " ", "_", "D", "L", "T", "\u{1}", "\u{7f}", "é", "ß", "€", "日", "𝄞", "~", "/",
+    "\"", "<", "&",
+];
+const POOL: &[&str] = &[
+    "", "A", "APP", "APP1", "CTX", "ECU", "é", "€a", "TEST", "Ab7 ", "NONE", "APP ",
+];
 
 fn short_text(u: &mut U, max: usize) -> String {
     let n = u.below(max.min(12) + 1);
@@ -135,16 +142,38 @@ fn id(u: &mut U, pool: bool) -> String {
         0..=3 => short_text(u, 4),
         4..=6 => {
             let n = 1 + u.below(4);
-            (0..n).map(|_| b"ABCDEFGHIJKLMNOPQRSTUVWXYZ0123456789"[u.below(36)] as char).collect()
+            (0..n)
+                .map(|_| b"ABCDEFGHIJKLMNOPQRSTUVWXYZ0123456789"[u.below(36)] as char)
+                .collect()
         }
         7 => String::new(),
-        _ => u.pick(&["ECU", "APP", "CON", "DLT\u{1}", "TEST", "€a", "𝄞"]).to_string(),
+        _ => u
+            .pick(&["ECU", "APP", "CON", "DLT\u{1}", "TEST", "€a", "𝄞"])
+            .to_string(),
     }
 }
 fn uint_value(u: &mut U, bits: u8) -> u128 {
-    let mask: u128 = if bits == 128 { u128::MAX } else { (1u128 << bits) - 1 };
+    let mask: u128 = if bits == 128 {
+        u128::MAX
+    } else {
+        (1u128 << bits) - 1
+    };
     match u.below(9) {
-        0..=2 => u.pick(&[0u128, 1, 2, 0x7f, 0x80, 0xff, 0x100, 1000, u128::MAX, u128::MAX >> 1, (u128::MAX >> 1) + 1]) & mask,
+        0..=2 => {
+            u.pick(&[
+                0u128,
+                1,
+                2,
+                0x7f,
+                0x80,
+                0xff,
+                0x100,
+                1000,
+                u128::MAX,
+                u128::MAX >> 1,
+                (u128::MAX >> 1) + 1,
+            ]) & mask
+        }
         3..=6 => u.u128() & mask,
         _ => {
             let v = u.u128();
@@ -158,21 +187,50 @@ fn sint_value(u: &mut U, bits: u8) -> i128 {
 }
 fn f32_bits(u: &mut U) -> u32 {
     if u.chance(96) {
-        u.pick(&[0u32, 0x8000_0000, 0x3f80_0000, 0xbf80_0000, 0x7f80_0000, 0xff80_0000, 0x7fc0_0000, 0x7fa0_0001, 0xffc1_2345, 1, 0x007f_ffff, 0x3c23_d70a, 0x3dcc_cccd, 0x4120_0000, 0x3f00_0000])
+        u.pick(&[
+            0u32,
+            0x8000_0000,
+            0x3f80_0000,
+            0xbf80_0000,
+            0x7f80_0000,
+            0xff80_0000,
+            0x7fc0_0000,
+            0x7fa0_0001,
+            0xffc1_2345,
+            1,
+            0x007f_ffff,
+            0x3c23_d70a,
+            0x3dcc_cccd,
+            0x4120_0000,
+            0x3f00_0000,
+        ])
     } else {
         u.u32()
     }
 }
 fn f64_bits(u: &mut U) -> u64 {
     if u.chance(96) {
-        u.pick(&[0u64, 0x8000_0000_0000_0000, 0x3ff0_0000_0000_0000, 0x7ff0_0000_0000_0000, 0xfff0_0000_0000_0000, 0x7ff8_0000_0000_0000, 0x7ff4_0000_0000_0001, 1])
+        u.pick(&[
+            0u64,
+            0x8000_0000_0000_0000,
+            0x3ff0_0000_0000_0000,
+            0x7ff0_0000_0000_0000,
+            0xfff0_0000_0000_0000,
+            0x7ff8_0000_0000_0000,
+            0x7ff4_0000_0000_0001,
+            1,
+        ])
     } else {
         u.u64()
     }
 }
 pub fn value_for(u: &mut U, kind: RKind, big: usize) -> RVal {
     match kind {
-        RKind::Bool => RVal::Bool(if u.chance(170) { u.below(2) as u8 } else { u.u8() }),
+        RKind::Bool => RVal::Bool(if u.chance(170) {
+            u.below(2) as u8
+        } else {
+            u.u8()
+        }),
         RKind::Sint(b) | RKind::SintFx(b) => RVal::I(sint_value(u, b)),
         RKind::Uint(b) | RKind::UintFx(b) => RVal::U(uint_value(u, b)),
         RKind::Float(32) => RVal::F32(f32_bits(u)),
@@ -200,16 +258,44 @@ fn arg(u: &mut U, big: usize) -> RArg {
     let trai = u.chance(38);
     let numeric = !matches!(kind, RKind::Bool | RKind::Str | RKind::Raw);
     let name = if vari { Some(text(u, 700)) } else { None };
-    let unit = if vari && numeric { Some(text(u, 700)) } else { None };
+    let unit = if vari && numeric {
+        Some(text(u, 700))
+    } else {
+        None
+    };
     let fixp = match kind {
-        RKind::SintFx(32) | RKind::UintFx(32) => Some((f32_bits(u), sint_value(u, 64) as i32 as i64)),
+        RKind::SintFx(32) | RKind::UintFx(32) => {
+            Some((f32_bits(u), sint_value(u, 64) as i32 as i64))
+        }
         RKind::SintFx(_) | RKind::UintFx(_) => Some((f32_bits(u), sint_value(u, 64) as i64)),
         _ => None,
     };
-    RArg { ty: RType { kind, vari, trai, scod }, name, unit, fixp, val }
+    RArg {
+        ty: RType {
+            kind,
+            vari,
+            trai,
+            scod,
+        },
+        name,
+        unit,
+        fixp,
+        val,
+    }
 }
 fn nw_arg(u: &mut U, big: usize) -> RArg {
-    RArg { ty: RType { kind: RKind::Raw, vari: false, trai: false, scod: 0 }, name: None, unit: None, fixp: None, val: RVal::Raw(blob(u, big)) }
+    RArg {
+        ty: RType {
+            kind: RKind::Raw,
+            vari: false,
+            trai: false,
+            scod: 0,
+        },
+        name: None,
+        unit: None,
+        fixp: None,
+        val: RVal::Raw(blob(u, big)),
+    }
 }
 fn arg_count(u: &mut U, large: bool) -> usize {
     if large {
@@ -236,8 +322,20 @@ pub fn message(u: &mut U, storage: g::StorageMode, large: bool, pool: bool) -> R
     };
     let (sh_ecu, ecu, apid, ctid) = (id(u, pool), id(u, pool), id(u, pool), id(u, pool));
     let (secs, micros, seid, tmsp) = (u.u32(), u.u32(), u.u32(), u.u32());
-    let fill = if large && u.chance(4) { Some(u.pick(&[65535u32, 65534, 65533, 65520, 32767, 32768, 32769, 256, 257, 255])) } else { None };
-    let mtin = |u: &mut U| if u.chance(192) { u.below(8) as u8 } else { 8 + u.below(8) as u8 };
+    let fill = if large && u.chance(4) {
+        Some(u.pick(&[
+            65535u32, 65534, 65533, 65520, 32767, 32768, 32769, 256, 257, 255,
+        ]))
+    } else {
+        None
+    };
+    let mtin = |u: &mut U| {
+        if u.chance(192) {
+            u.below(8) as u8
+        } else {
+            8 + u.below(8) as u8
+        }
+    };
     let (msin, payload) = if !ueh {
         (0u8, RPayload::NonVerbose(u.u32(), blob(u, big)))
     } else {
@@ -251,11 +349,18 @@ pub fn message(u: &mut U, storage: g::StorageMode, large: bool, pool: bool) -> R
             10..=12 => {
                 let m = (2 << 1) | (mtin(u) << 4) | 1;
                 let n = arg_count(u, large);
-                (m, RPayload::Verbose((0..n).map(|_| nw_arg(u, big)).collect()))
+                (
+                    m,
+                    RPayload::Verbose((0..n).map(|_| nw_arg(u, big)).collect()),
+                )
             }
             13..=15 => {
                 let m = (3 << 1) | (mtin(u) << 4);
-                let service = if u.chance(170) { u.below(5) as u8 } else { u.u8() };
+                let service = if u.chance(170) {
+                    u.below(5) as u8
+                } else {
+                    u.u8()
+                };
                 (m, RPayload::Control(service, blob(u, big)))
             }
             _ => {
@@ -267,14 +372,31 @@ pub fn message(u: &mut U, storage: g::StorageMode, large: bool, pool: bool) -> R
     };
     let htyp = (flags & !UEH) | if ueh { UEH } else { 0 };
     let m = RMsg {
-        storage: if with_storage { Some(RStorage { secs, micros, ecu: sh_ecu }) } else { None },
+        storage: if with_storage {
+            Some(RStorage {
+                secs,
+                micros,
+                ecu: sh_ecu,
+            })
+        } else {
+            None
+        },
         htyp,
         mcnt,
         len: 0,
         ecu: if htyp & WEID != 0 { Some(ecu) } else { None },
         seid: if htyp & WSID != 0 { Some(seid) } else { None },
         tmsp: if htyp & WTMS != 0 { Some(tmsp) } else { None },
-        ext: if ueh { Some(RExt { msin, noar: 0, apid, ctid }) } else { None },
+        ext: if ueh {
+            Some(RExt {
+                msin,
+                noar: 0,
+                apid,
+                ctid,
+            })
+        } else {
+            None
+        },
         payload,
     };
     g::finish(m, fill)
@@ -288,7 +410,9 @@ fn suffix(u: &mut U) -> Vec<u8> {
             b.push(u.u8());
             b
         }
-        7 | 8 => u.pick(&[&b"D"[..], b"DL", b"DLT", b"DLT\x01", b"DLT\x01\0\0"]).to_vec(),
+        7 | 8 => u
+            .pick(&[&b"D"[..], b"DL", b"DLT", b"DLT\x01", b"DLT\x01\0\0"])
+            .to_vec(),
         9..=11 => refcodec::encode(&message(u, g::StorageMode::Either, false, false)),
         _ => expand_bytes(u.u64(), u.below(3000), u.below(6) as u8),
     }
@@ -300,7 +424,9 @@ fn junk(u: &mut U) -> Vec<u8> {
         0 | 1 => return vec![],
         2..=5 => {
             let n = u.below(40);
-            (0..n).map(|_| [b'D', b'L', b'T', 1u8, 0, 9][u.below(6)]).collect::<Vec<u8>>()
+            (0..n)
+                .map(|_| [b'D', b'L', b'T', 1u8, 0, 9][u.below(6)])
+                .collect::<Vec<u8>>()
         }
         6..=8 => u.bytes(59),
         _ => expand_bytes(u.u64(), u.below(5000), u.below(6) as u8),
@@ -319,7 +445,9 @@ fn schedule(u: &mut U) -> Schedule {
             0x38..=0x3f => Step::StallRun([2u16, 5, 17, 64, 65, 130, 300, 1000][b as usize & 7]),
             0x40..=0x9f => Step::Data(1 + (b as u16 & 7)),
             0xa0..=0xef => Step::Data(1 + (b as u16 & 63)),
-            _ => Step::Data([1u16, 3, 4, 15, 16, 17, 19, 20, 21, 4096, 65535][(b as usize & 15) % 11]),
+            _ => Step::Data(
+                [1u16, 3, 4, 15, 16, 17, 19, 20, 21, 4096, 65535][(b as usize & 15) % 11],
+            ),
         });
     }
     let then_chunk = match u.below(5) {
@@ -327,11 +455,19 @@ fn schedule(u: &mut U) -> Schedule {
         2 | 3 => 1 + u.below(64) as u16,
         _ => u.pick(&[1u16, 2, 3, 5, 7, 19, 21, 1000]),
     };
-    Schedule { steps, then_chunk, then_stall: u.chance(64) }
+    Schedule {
+        steps,
+        then_chunk,
+        then_stall: u.chance(64),
+    }
 }
 
 fn stream(u: &mut U, storage: bool) -> Vec<u8> {
-    let st = if storage { g::StorageMode::Always } else { g::StorageMode::Never };
+    let st = if storage {
+        g::StorageMode::Always
+    } else {
+        g::StorageMode::Never
+    };
     let msgs = |u: &mut U, max: usize| -> Vec<u8> {
         let n = u.below(max + 1);
         let mut b = vec![];
@@ -380,7 +516,9 @@ fn filter_ids(u: &mut U) -> Option<Vec<String>> {
                 let p = POOL[u.below(POOL.len())].to_string();
                 match u.below(17) {
                     0..=11 => p,
-                    12 | 13 => format!("{}{}", p, u.pick(&["0", "1", "X", " ", "\u{0}", "é", "10"])),
+                    12 | 13 => {
+                        format!("{}{}", p, u.pick(&["0", "1", "X", " ", "\u{0}", "é", "10"]))
+                    }
                     14 => p.chars().take(u.below(4)).collect(),
                     15 => {
                         if p.chars().any(|c| c.is_ascii_uppercase()) {
@@ -402,8 +540,15 @@ fn filter(u: &mut U) -> c04::Filter {
         _ => Some(u.u8()),
     };
     let (app_ids, ecu_ids, context_ids) = (filter_ids(u), filter_ids(u), filter_ids(u));
-    let set_len = |l: &Option<Vec<String>>| l.as_ref().map(|v| v.iter().collect::<std::collections::BTreeSet<_>>().len() as i64).unwrap_or(0);
-    let (mut a, mut c) = (set_len(&app_ids) + u.below(3) as i64 - 1, set_len(&context_ids) + u.below(3) as i64 - 1);
+    let set_len = |l: &Option<Vec<String>>| {
+        l.as_ref()
+            .map(|v| v.iter().collect::<std::collections::BTreeSet<_>>().len() as i64)
+            .unwrap_or(0)
+    };
+    let (mut a, mut c) = (
+        set_len(&app_ids) + u.below(3) as i64 - 1,
+        set_len(&context_ids) + u.below(3) as i64 - 1,
+    );
     match u.below(9) {
         3 => a = 0,
         4 => c = -5,
@@ -421,7 +566,14 @@ fn filter(u: &mut U) -> c04::Filter {
         }
         _ => {}
     }
-    c04::Filter { min_log_level, app_ids, ecu_ids, context_ids, app_id_count: a, context_id_count: c }
+    c04::Filter {
+        min_log_level,
+        app_ids,
+        ecu_ids,
+        context_ids,
+        app_id_count: a,
+        context_id_count: c,
+    }
 }
 
 // ------------------------------------------------------------------------------------------------
@@ -432,12 +584,22 @@ pub fn run(id: &str, data: &[u8]) -> Option<Outcome> {
     crate::oracle::install_logger();
     let mut u = U::new(data);
     let u = &mut u;
-    let out = |section: &'static str, case: Json, result: CheckResult| Some(Outcome { section, case, result });
+    let out = |section: &'static str, case: Json, result: CheckResult| {
+        Some(Outcome {
+            section,
+            case,
+            result,
+        })
+    };
     match id {
         "C01" => {
             // (mostly small messages: a 64 KiB case costs milliseconds under the sanitizer)
             let large = u.chance(24);
-            let c = c01::Case { msg: message(u, g::StorageMode::Either, large, false), suffix: suffix(u), suffix2: suffix(u) };
+            let c = c01::Case {
+                msg: message(u, g::StorageMode::Either, large, false),
+                suffix: suffix(u),
+                suffix2: suffix(u),
+            };
             let r = c01::check(&c);
             out("roundtrip", json!(c), r)
         }
@@ -449,7 +611,9 @@ pub fn run(id: &str, data: &[u8]) -> Option<Outcome> {
         }
         "C05" => {
             let large = u.chance(20);
-            let c = c05::Case { msg: message(u, g::StorageMode::Either, large, false) };
+            let c = c05::Case {
+                msg: message(u, g::StorageMode::Either, large, false),
+            };
             let r = c05::check(&c);
             out("prefixes", json!(c), r)
         }
@@ -458,12 +622,23 @@ pub fn run(id: &str, data: &[u8]) -> Option<Outcome> {
                 0 | 1 => c06::Case::Search(u.rest()),
                 2..=5 => {
                     let large = u.chance(28);
-                    c06::Case::Parse { junk: junk(u), msg: message(u, g::StorageMode::Always, large, false), suffix: suffix(u), filter: if u.bool() { 0 } else { 1 + u.below(7) as u8 } }
+                    c06::Case::Parse {
+                        junk: junk(u),
+                        msg: message(u, g::StorageMode::Always, large, false),
+                        suffix: suffix(u),
+                        filter: if u.bool() { 0 } else { 1 + u.below(7) as u8 },
+                    }
                 }
                 _ => {
                     let n = 1 + u.below(5);
-                    let msgs = (0..n).map(|_| message(u, g::StorageMode::Always, false, false)).collect();
-                    c06::Case::Stream { msgs, junks: (0..7).map(|_| junk(u)).collect(), filter: if u.bool() { 0 } else { 1 + u.below(7) as u8 } }
+                    let msgs = (0..n)
+                        .map(|_| message(u, g::StorageMode::Always, false, false))
+                        .collect();
+                    c06::Case::Stream {
+                        msgs,
+                        junks: (0..7).map(|_| junk(u)).collect(),
+                        filter: if u.bool() { 0 } else { 1 + u.below(7) as u8 },
+                    }
                 }
             };
             let r = c06::check(&c);
@@ -474,14 +649,32 @@ pub fn run(id: &str, data: &[u8]) -> Option<Outcome> {
             let sched = schedule(u);
             // (reader_kind 0 = ::new allocates the 10 MiB default buffer per reader: rare here)
             let reader_kind = [1u8, 2, 4, 5, 4, 5, 1, 2, 4, 5, 4, 5, 4, 5, 3, 0][u.below(16)];
-            let filter = if u.chance(192) { 0 } else { 1 + u.below(7) as u8 };
+            let filter = if u.chance(192) {
+                0
+            } else {
+                1 + u.below(7) as u8
+            };
             let stream = stream(u, storage);
             if id == "C07" {
-                let c = c07::Case { stream, storage, schedule: sched, reader_kind, filter, systematic: false };
+                let c = c07::Case {
+                    stream,
+                    storage,
+                    schedule: sched,
+                    reader_kind,
+                    filter,
+                    systematic: false,
+                };
                 let r = c07::check(&c);
                 out("schedules", json!(c), r)
             } else {
-                let c = c08::Case { stream, storage, schedule: sched, reader_kind, filter, systematic: false };
+                let c = c08::Case {
+                    stream,
+                    storage,
+                    schedule: sched,
+                    reader_kind,
+                    filter,
+                    systematic: false,
+                };
                 let r = c08::check(&c);
                 out("poll-schedules", json!(c), r)
             }
@@ -491,32 +684,65 @@ pub fn run(id: &str, data: &[u8]) -> Option<Outcome> {
             let msg = message(u, g::StorageMode::Either, false, true);
             let sfx = suffix(u);
             let borrowed = u.bool();
-            let (force_log, own, valid_min) = (u.bool(), [u.bool(), u.bool(), u.bool()], u.chance(100));
-            let c = c09::assemble(f, msg, sfx, borrowed, force_log, own, valid_min);
+            let (force_log, own, valid_min) =
+                (u.bool(), [u.bool(), u.bool(), u.bool()], u.chance(100));
+            let mut c = c09::assemble(f, msg, sfx, borrowed, force_log, own, valid_min);
+            c.handbuilt = u.pick(&[0u8, 0, 0, 1, 1, 2]);
+            c.siblings = u.chance(96);
             let r = c09::check(&c);
             out("filter", json!(c), r)
         }
         "C10" => {
             let storage = u.bool();
-            let st = if storage { g::StorageMode::Always } else { g::StorageMode::Never };
+            let st = if storage {
+                g::StorageMode::Always
+            } else {
+                g::StorageMode::Never
+            };
             let n = u.below(40);
-            let msgs = (0..n).map(|_| c10::more_logs(message(u, st, false, true))).collect();
+            let msgs = (0..n)
+                .map(|_| c10::more_logs(message(u, st, false, true)))
+                .collect();
             let splits = (0..u.below(5)).map(|_| u.u16()).collect();
             let order = (0..u.below(6)).map(|_| u.u16()).collect();
             let merges = (0..8).map(|_| (u.u16(), u.u16())).collect();
-            let repeat = if u.chance(50) { Some((u.u16(), u.u16())) } else { None };
-            let c = c10::Case { storage, msgs, splits, order, merges, repeat };
+            let repeat = if u.chance(50) {
+                Some((u.u16(), u.u16()))
+            } else {
+                None
+            };
+            let c = c10::Case {
+                storage,
+                msgs,
+                splits,
+                order,
+                merges,
+                repeat,
+            };
             let r = c10::check(&c);
             out("streams", json!(c), r)
         }
         "C15" => {
             let c = if u.chance(236) {
                 let large = u.chance(24);
-                c15::Case::Config { msg: message(u, g::StorageMode::Either, large, false), ts: (u.u32(), u.u32()), twist: [0u8, 0, 0, 0, 0, 0, 0, 0, 1, 2, 3][u.below(11)] }
+                c15::Case::Config {
+                    msg: message(u, g::StorageMode::Either, large, false),
+                    ts: (u.u32(), u.u32()),
+                    twist: [0u8, 0, 0, 0, 0, 0, 0, 0, 1, 2, 3][u.below(11)],
+                }
             } else {
-                let kind = u.pick(&[RKind::Bool, RKind::Float(32), RKind::Float(64), RKind::Uint(32), RKind::Str]);
+                let kind = u.pick(&[
+                    RKind::Bool,
+                    RKind::Float(32),
+                    RKind::Float(64),
+                    RKind::Uint(32),
+                    RKind::Str,
+                ]);
                 let vk = self::kind(u);
-                c15::Case::Valid { kind, val: value_for(u, vk, 20) }
+                c15::Case::Valid {
+                    kind,
+                    val: value_for(u, vk, 20),
+                }
             };
             let r = c15::check(&c);
             out("configs", json!(c), r)
@@ -534,25 +760,94 @@ pub fn run(id: &str, data: &[u8]) -> Option<Outcome> {
             out("random", json!(c), r)
         }
         "C18" => {
-            let kind = if u.chance(200) { u.pick(&[RKind::SintFx(32), RKind::SintFx(64), RKind::UintFx(32), RKind::UintFx(64)]) } else { self::kind(u) };
-            let q = if u.bool() { f32_bits(u) } else { u.pick(&[1.0f32, 0.5, 0.1, 0.01, 2.0, 10.0, 1e-9, 1e9, 4294967296.0, 0.25]).to_bits() };
+            let kind = if u.chance(200) {
+                u.pick(&[
+                    RKind::SintFx(32),
+                    RKind::SintFx(64),
+                    RKind::UintFx(32),
+                    RKind::UintFx(64),
+                ])
+            } else {
+                self::kind(u)
+            };
+            let q = if u.bool() {
+                f32_bits(u)
+            } else {
+                u.pick(&[
+                    1.0f32,
+                    0.5,
+                    0.1,
+                    0.01,
+                    2.0,
+                    10.0,
+                    1e-9,
+                    1e9,
+                    4294967296.0,
+                    0.25,
+                ])
+                .to_bits()
+            };
             let off = match u.below(4) {
                 0 => u.u64() as i64,
-                1 => u.pick(&[i64::MIN, i64::MAX, i32::MIN as i64, i32::MAX as i64, -1, 0, -200, -50]),
+                1 => u.pick(&[
+                    i64::MIN,
+                    i64::MAX,
+                    i32::MIN as i64,
+                    i32::MAX as i64,
+                    -1,
+                    0,
+                    -200,
+                    -50,
+                ]),
                 _ => u.below(2001) as i64 - 1000,
             };
             let vbits = u.pick(&[8u8, 16, 32, 64, 128, 32, 64]);
             let val = match u.below(8) {
                 0..=2 => RVal::U(uint_value(u, vbits)),
                 3..=5 => RVal::I(sint_value(u, vbits)),
-                6 => RVal::U(u.below(100_000) as u128 & if vbits >= 32 { u128::MAX } else { (1u128 << vbits) - 1 }),
+                6 => RVal::U(
+                    u.below(100_000) as u128
+                        & if vbits >= 32 {
+                            u128::MAX
+                        } else {
+                            (1u128 << vbits) - 1
+                        },
+                ),
                 _ => {
                     let vk = self::kind(u);
                     value_for(u, vk, 20)
                 }
             };
-            let extras = if u.bool() { Some((u.bool(), if u.bool() { Some(short_text(u, 8)) } else { None }, if u.bool() { Some(short_text(u, 8)) } else { None }, u.bool(), u.below(8) as u8)) } else { None };
-            let c = c18::Case { kind, fixp: if u.chance(230) { Some((q, off, u.bool())) } else { None }, vbits, val, extras };
+            let extras = if u.bool() {
+                Some((
+                    u.bool(),
+                    if u.bool() {
+                        Some(short_text(u, 8))
+                    } else {
+                        None
+                    },
+                    if u.bool() {
+                        Some(short_text(u, 8))
+                    } else {
+                        None
+                    },
+                    u.bool(),
+                    u.below(8) as u8,
+                ))
+            } else {
+                None
+            };
+            let c = c18::Case {
+                kind,
+                fixp: if u.chance(230) {
+                    Some((q, off, u.bool()))
+                } else {
+                    None
+                },
+                vbits,
+                val,
+                extras,
+            };
             let r = c18::check(&c);
             out("random", json!(c), r)
         }
@@ -564,9 +859,15 @@ pub fn run(id: &str, data: &[u8]) -> Option<Outcome> {
                     4 => u.pick(&[255usize, 256, 4096, 65535]),
                     _ => u.u16() as usize,
                 };
-                c19::Case::Field { buf: u.rest(), size }
+                c19::Case::Field {
+                    buf: u.rest(),
+                    size,
+                }
             } else {
-                c19::Case::Ids { ids: (0..16).map(|_| u.u8()).collect(), big_endian: u.bool() }
+                c19::Case::Ids {
+                    ids: (0..16).map(|_| u.u8()).collect(),
+                    big_endian: u.bool(),
+                }
             };
             let r = c19::check(&c);
             out("random", json!(c), r)
